@@ -134,7 +134,8 @@ class C13:
             if c < 0.35:
                 o['npixels'] = rng.randint(60, n * n)
                 if kind == 'nmpfit' and rng.random() < 0.7:
-                    o['seed'] = rng.randrange(1000)
+                    o['seed'] = rng.choice([0, rng.randrange(1000),
+                                            rng.randrange(1000)])
                 else:
                     seeded = False
             h = b.emit('strategy', {'kind': kind, 'options': o}, store='st')
